@@ -133,6 +133,11 @@ func drawHistory(g *gen.G, descs []*ObjDesc, maxSteps int) []HStep {
 	// forced: step kinds that must come next on forcedObj (the refill after a Reset, see HReset)
 	var forced []int
 	forcedObj := -1
+	// optFocus: the long-lived EdgeQuery whose options the caller has just changed; its next few
+	// questions are ones whose answer tells the old options from the new (a point well inside a
+	// polygon of the index, small limits), asked through every kind of call: a query that follows
+	// the change in one method and not in another shows only when two calls can both tell
+	optFocus, optFocusLeft := -1, 0
 	for len(steps) < n {
 		obj := int(t.Uint(uint32(len(descs))))
 		forceFocus := false
@@ -170,9 +175,14 @@ func drawHistory(g *gen.G, descs []*ObjDesc, maxSteps int) []HStep {
 				h.EQ = drawEQOpts(g)
 				h.EQ.NilOpts = false
 				h.EQ.Furthest = sq.eqOpt[focusID].Furthest
+				if t.Chance(600) {
+					// the change that every kind of call can tell from its answer: interiors on/off
+					h.EQ.Interiors = !sq.eqOpt[focusID].Interiors
+				}
 				sq.eqOpt[focusID] = h.EQ
 				steps = append(steps, h)
-				focusLeft++
+				focusLeft += 2
+				optFocus, optFocusLeft = focusID, 3+int(t.Uint(3))
 				continue
 			}
 		}
@@ -290,8 +300,12 @@ func drawHistory(g *gen.G, descs []*ObjDesc, maxSteps int) []HStep {
 				h.Shape = r
 				h.EQ.NilOpts = false
 				h.EQ.Furthest = sq.eqOpt[r].Furthest
+				if t.Chance(600) {
+					h.EQ.Interiors = !sq.eqOpt[r].Interiors
+				}
 				sq.eqOpt[r] = h.EQ
-				focusFam, focusID, focusObj, focusLeft = HNewEQ, r, obj, 1+int(t.Uint(3))
+				focusFam, focusID, focusObj, focusLeft = HNewEQ, r, obj, 2+int(t.Uint(3))
+				optFocus, optFocusLeft = r, 3+int(t.Uint(3))
 				break
 			}
 			sq.eqObj = append(sq.eqObj, obj)
@@ -352,6 +366,19 @@ func drawHistory(g *gen.G, descs []*ObjDesc, maxSteps int) []HStep {
 						q.Obj2 = focusObj
 					}
 					q.Limit = s1.ChordAngleFromAngle(s1.Angle(0.0002 + 1.5*t.Float()))
+					if optFocusLeft > 0 && focusID == optFocus {
+						optFocusLeft--
+						if live := syms[focusObj].live; len(live) > 0 && t.Chance(750) {
+							q.TK = TPoint
+							var probe Op
+							aimAtShape(g, &probe, descs[focusObj].Shapes[live[int(t.Uint(uint32(len(live))))]])
+							q.P = probe.P
+							q.Kind = []int{QFindEdges, QDistance, QIsDistLess, QIsConsDist}[t.Uint(4)]
+							if t.Chance(600) {
+								q.Limit = s1.ChordAngleFromAngle(s1.Angle(1e-7 + 0.01*t.Float()))
+							}
+						}
+					}
 				case HNewCEQ:
 					q.Kind = []int{QCrossings, QCrossingsMap}[t.Uint(2)]
 				case HNewCPQ:
